@@ -91,7 +91,7 @@ class Edge:
         self.dirty = bool(obj.get("dirty", False))
 
 
-ALL_PROPS = ("C01", "C02", "C03", "C10", "C11")
+ALL_PROPS = ("C01", "C02", "C03", "C10", "C11")  # C05 only on request (three engine steps per edge)
 
 
 def _set(xs) -> str:
